@@ -66,7 +66,7 @@ def run(tier):
             raise vlib.Broken("the real splitRing differs from SplitRing.tla on %d record(s), e.g. %s (%s): the design results do not "
                               "transfer to this code, and no polygon-level failure was found" % (len(anomalies), anomalies[0][1][:400], anomalies[0][0]))
     return snapcheck.run_snap_property(
-        PROP, tier, "SnapTrace_C05.cfg", plans(tier), extra_lines=extra, post=post, real_plans=real_plans(tier), real_cfg="RealTrace_C05.cfg", codesnap=True,
+        PROP, tier, "SnapTrace_C05.cfg", plans(tier), design=('snap', 'snapcode'), extra_lines=extra, post=post, real_plans=real_plans(tier), real_cfg="RealTrace_C05.cfg", codesnap=True,
         rule="arbitrary vertex sequences from small point pools (repeated vertices, spikes, rings of 0-2 points, up to 3 rings) and valid "
              "polygons, each run with keep-points-and-lines off and on (and reverse toggled); ring structure, orientation by sign of area, "
              "collapse policy and the keep/no-keep relation judged by TLC")
